@@ -406,7 +406,8 @@ func c14Gen(r *mon.Rand) []string {
 					argv = append(argv, "-w", mon.Pick(r, c14Values))
 				}
 			case 1:
-				if r.Chance(3, 4) {
+				// usually one -p; sometimes two or three (every one of them counts: the access types add up)
+				for i, n := 0, mon.Pick(r, []int{1, 1, 1, 1, 1, 0, 0, 2, 2, 3}); i < n; i++ {
 					argv = append(argv, "-p", mon.Pick(r, []string{"r", "w", "x", "a", "rw", "wa", "rwxa", "arwx", "rr", "q", "rwq", "", "r w"}))
 				}
 			case 2:
